@@ -60,6 +60,17 @@ func checkNotSpecial(fsys afero.Fs, path string) error {
 	return nil
 }
 
+// LstatIfPossible makes afero.Lstater of the underlying filesystem visible (embedding of afero.Fs hides it).
+func (fsys *FS) LstatIfPossible(path string) (fs.FileInfo, bool, error) {
+	if lstater, ok := fsys.Fs.(afero.Lstater); ok {
+		return lstater.LstatIfPossible(path)
+	}
+
+	info, err := fsys.Fs.Stat(path)
+
+	return info, false, err
+}
+
 func (fsys *FS) Open(path string) (afero.File, error) {
 	return fsys.OpenFile(path, os.O_RDONLY, 0)
 }
